@@ -17,6 +17,17 @@ pub const SIG_REQUIRED_BUNDLE_EMITTED: &str = "required-bundle-emitted-in-versio
 /// Finding: `get_fee` prices the `bundle_required` padding of a pool whose bundle `build_for_pczt`
 /// then omits because the transaction version cannot carry it.
 pub const SIG_FEE_OMITTED_BUNDLE: &str = "fee-charged-for-omitted-required-bundle";
+/// Finding: `DeferredPcztBuilder::get_fee` prices the `bundle_required` padding of an Orchard or
+/// Ironwood pool without requested content, while `DeferredPcztBuilder::build_for_pczt` emits a
+/// bundle only for a pool that is "in use" (has a requested spend or output).
+pub const SIG_DEFERRED_REQUIRED_BUNDLE: &str = "deferred-builder-fee-charged-for-omitted-required-bundle";
+
+/// Finding: the scriptSig of a P2SH input whose redeem script is 128..=255 bytes long (multisig
+/// with 4..=7 compressed keys) pushes the redeem script as `OP_PUSHDATA1 <len> 0x00 <script>`: the
+/// length after OP_PUSHDATA1 is written as a script *number* (sign-magnitude, so 0x80..=0xff get a
+/// 0x00 sign byte) instead of one unsigned byte. The scriptSig is not push-only any more and the
+/// pushed element is not the redeem script, so the input can never be valid.
+pub const SIG_PUSHDATA1_LENGTH: &str = "p2sh-script-sig-redeem-push-length-misencoded";
 
 #[derive(Clone, Copy, Debug, PartialEq, Eq)]
 pub enum Engine {
@@ -26,6 +37,9 @@ pub enum Engine {
     Pczt,
     /// full `build` with real Orchard proving (thorough only)
     Prove,
+    /// `DeferredPcztBuilder::build_for_pczt` (anchors deferred to proving time; Orchard and
+    /// Ironwood content only), inspected through the returned parts
+    Deferred,
 }
 
 #[derive(Clone, Copy, Debug, PartialEq, Eq, PartialOrd, Ord)]
@@ -235,14 +249,36 @@ pub enum Rule {
     Fixed(u64),
 }
 
+/// How a transparent coin is locked / spent.
+#[derive(Clone, Debug, PartialEq, Eq)]
+pub enum TSpend {
+    /// pay-to-public-key-hash of harness key `TIn::key`
+    P2pkh,
+    /// pay-to-script-hash of the `m`-of-`keys.len()` multisig redeem script over the harness keys
+    /// `keys` (in redeem-script order). Bit `j` of `present` = the key at position `j` is put into
+    /// the signing set (the set is shared by all inputs of the transaction).
+    P2sh { m: u8, keys: Vec<u8>, present: u16 },
+    /// pay-to-script-hash of a redeem script that is not a multisig script (the P2PKH script of
+    /// harness key `TIn::key`): documented as not supported for signing / size estimation
+    P2shOther,
+}
+
+impl TSpend {
+    pub fn is_p2sh_multisig(&self) -> bool {
+        matches!(self, TSpend::P2sh { .. })
+    }
+}
+
 #[derive(Clone, Debug, PartialEq, Eq)]
 pub struct TIn {
     pub key: u8,
     pub value: u64,
-    /// coin script pays to another key: documented `InvalidAddress` at add time
+    /// coin script does not belong to the spend information (another key / another script hash /
+    /// the other script kind): documented `InvalidAddress` at add time
     pub wrong_script: bool,
     /// go through `TransparentInputInfo::from_parts` + `add_transparent_input`
     pub via_info: bool,
+    pub spend: TSpend,
 }
 
 #[derive(Clone, Debug, PartialEq, Eq)]
@@ -376,7 +412,9 @@ pub struct Case {
 
 #[derive(Clone, Debug, PartialEq, Eq, Default)]
 pub struct Shape {
-    pub t_in: usize,
+    /// size in bytes with which each transparent input is priced: the ZIP 317 standard size for a
+    /// P2PKH input, the estimated serialized size for a P2SH multisig input
+    pub t_in_sizes: Vec<usize>,
     /// serialized sizes of the transparent outputs: 8 + CompactSize(len) + len
     pub t_out_sizes: Vec<usize>,
     pub s_spends: usize,
@@ -427,6 +465,9 @@ pub fn ref_orchard_actions(no_cross_address: bool, pad: Pad, spends: usize, outp
 
 /// ZIP 317 conventional fee with explicit parameters, in u128.
 pub fn zip317(marginal: u128, grace: u128, std_in: u128, std_out: u128, s: &Shape, t_in_bytes: u128) -> u128 {
+    // ZIP 317: logical_actions = max(ceil(tx_in_total_size / 150), ceil(tx_out_total_size / 34))
+    //          + max(nSpendsSapling, nOutputsSapling) + nActionsOrchard (+ Ironwood actions);
+    //          conventional_fee = marginal_fee * max(grace_actions, logical_actions)
     let t_out_bytes: u128 = s.t_out_sizes.iter().map(|x| *x as u128).sum();
     let logical = t_in_bytes.div_ceil(std_in).max(t_out_bytes.div_ceil(std_out))
         + (s.s_spends.max(s.s_outputs) as u128)
@@ -435,18 +476,16 @@ pub fn zip317(marginal: u128, grace: u128, std_in: u128, std_out: u128, s: &Shap
     marginal * grace.max(logical)
 }
 
+/// Size with which a P2PKH input is priced: the ZIP 317 standard size of 150 bytes (documented on
+/// `InputView for TransparentInputInfo` and `InputSize::STANDARD_P2PKH`).
+pub const P2PKH_PRICED_SIZE: usize = 150;
+
 /// Fee the rule prescribes for a shape. P2PKH inputs count with the ZIP 317 standard size of 150
-/// bytes (documented on `InputView for TransparentInputInfo`). `None` = the fee is not a valid
-/// amount (documented `FeeError::Balance(Overflow)`).
+/// bytes, P2SH inputs with their estimated serialized size (`Shape::t_in_sizes`). `None` = the fee
+/// is not a valid amount (documented `FeeError::Balance(Overflow)`).
 pub fn ref_fee(rule: &Rule, s: &Shape) -> Option<u128> {
-    let f = match rule {
-        Rule::Fixed(f) => *f as u128,
-        Rule::Standard => zip317(5_000, 2, 150, 34, s, 150 * s.t_in as u128),
-        Rule::NonStd { marginal, grace, std_in, std_out } => {
-            zip317(*marginal as u128, *grace as u128, *std_in as u128, *std_out as u128, s, 150 * s.t_in as u128)
-        }
-    };
-    (f <= MAX_MONEY as u128).then_some(f)
+    let t_in_bytes: u128 = s.t_in_sizes.iter().map(|x| *x as u128).sum();
+    ref_fee_exact_sizes(rule, s, t_in_bytes)
 }
 
 /// Same with the true serialized input sizes (ZIP 317 proper): a lower bound of the fee paid.
@@ -491,6 +530,82 @@ pub fn null_data_script(data: &[u8]) -> Vec<u8> {
     }
     v.extend_from_slice(data);
     v
+}
+
+/// Minimal data push (Bitcoin script): a 1-byte length below 76 bytes, OP_PUSHDATA1 (0x4c) with a
+/// 1-byte length up to 255 bytes, OP_PUSHDATA2 (0x4d) with a 2-byte little-endian length above.
+pub fn push_data(data: &[u8]) -> Vec<u8> {
+    let mut v = vec![];
+    if data.len() < 76 {
+        v.push(data.len() as u8);
+    } else if data.len() <= 255 {
+        v.push(0x4c);
+        v.push(data.len() as u8);
+    } else {
+        assert!(data.len() <= 0xFFFF, "harness: push longer than OP_PUSHDATA2 allows");
+        v.push(0x4d);
+        v.extend_from_slice(&(data.len() as u16).to_le_bytes());
+    }
+    v.extend_from_slice(data);
+    v
+}
+
+/// Standard bare-multisig template: `OP_m <33-byte pubkey>.. OP_n OP_CHECKMULTISIG`
+/// (OP_1..OP_16 = 0x51..0x60, OP_CHECKMULTISIG = 0xae).
+pub fn multisig_redeem_script(m: u8, pubkeys: &[[u8; 33]]) -> Vec<u8> {
+    assert!((1..=16).contains(&m) && (1..=16).contains(&pubkeys.len()), "harness: multisig arity");
+    let mut v = vec![0x50 + m];
+    for pk in pubkeys {
+        v.push(33);
+        v.extend_from_slice(pk);
+    }
+    v.push(0x50 + pubkeys.len() as u8);
+    v.push(0xae);
+    v
+}
+
+/// Independent parser of the template above: (m, pubkeys).
+pub fn parse_multisig_redeem_script(s: &[u8]) -> Option<(u8, Vec<[u8; 33]>)> {
+    let (&first, rest) = s.split_first()?;
+    if !(0x51..=0x60).contains(&first) || rest.len() < 2 || rest[rest.len() - 1] != 0xae {
+        return None;
+    }
+    let n_op = rest[rest.len() - 2];
+    if !(0x51..=0x60).contains(&n_op) {
+        return None;
+    }
+    let body = &rest[..rest.len() - 2];
+    if body.len() % 34 != 0 {
+        return None;
+    }
+    let mut keys = vec![];
+    for chunk in body.chunks(34) {
+        if chunk[0] != 33 {
+            return None;
+        }
+        let mut k = [0u8; 33];
+        k.copy_from_slice(&chunk[1..]);
+        keys.push(k);
+    }
+    let (m, n) = (first - 0x50, n_op - 0x50);
+    (keys.len() == n as usize && m <= n).then_some((m, keys))
+}
+
+/// Estimated serialized size of an input that spends a P2SH `m`-of-n multisig coin, as documented
+/// for the builder (`p2sh_input_serialized_len`, `MAX_SIG_SIZE`): outpoint (36) + CompactSize of
+/// the scriptSig length + scriptSig + sequence (4), where the scriptSig is
+/// `OP_0 <sig>*m <redeem script>` with every signature taken at its maximum size of 72 DER bytes
+/// + 1 hash-type byte (each pushed with a 1-byte length).
+pub fn p2sh_multisig_input_size(m: usize, redeem_script_len: usize) -> usize {
+    let push_len = if redeem_script_len < 76 {
+        1
+    } else if redeem_script_len <= 255 {
+        2
+    } else {
+        3
+    };
+    let script_sig = 1 + m * (1 + 73) + push_len + redeem_script_len;
+    36 + compact_size_len(script_sig) + script_sig + 4
 }
 
 pub fn expected_script(k: &TKind) -> Vec<u8> {
